@@ -170,7 +170,7 @@ func (r *Run) NViolations() int { r.mu.Lock(); defer r.mu.Unlock(); return len(r
 
 func (r *Run) persist(v Violation) string {
 	h := sha256.Sum256([]byte(v.Key + "\x00" + v.Summary + "\x00" + v.Detail))
-	dir := filepath.Join(r.VerifDir, "replays", r.Prop, hex.EncodeToString(h[:6]))
+	dir := filepath.Join(outDir(r.VerifDir), "replays", r.Prop, hex.EncodeToString(h[:6]))
 	os.MkdirAll(dir, 0o755)
 	for rel, c := range v.Files {
 		p := filepath.Join(dir, rel)
@@ -267,8 +267,8 @@ func (r *Run) Finish() int {
 		"coverage": cov, "assumptions": r.Assume, "wall_s": wall, "violations": len(r.violations),
 	}
 	b, _ := json.MarshalIndent(ev, "", " ")
-	os.MkdirAll(filepath.Join(r.VerifDir, "evidence"), 0o755)
-	os.WriteFile(filepath.Join(r.VerifDir, "evidence", r.Prop+".json"), append(b, '\n'), 0o644)
+	os.MkdirAll(filepath.Join(outDir(r.VerifDir), "evidence"), 0o755)
+	os.WriteFile(filepath.Join(outDir(r.VerifDir), "evidence", r.Prop+".json"), append(b, '\n'), 0o644)
 
 	fmt.Printf("%s tier=%s seed=%d: evaluations=%d distinct_nontrivial=%d violations=%d known=%d inconclusive=%d wall=%.1fs\n",
 		r.Prop, r.Tier, r.Seed, r.evaluations, len(r.distinct), len(r.violations), len(r.known), len(r.inconclusive), wall)
@@ -290,4 +290,13 @@ func (r *Run) Finish() int {
 		return 2
 	}
 	return 0
+}
+
+// outDir is where evidence and replays are written: /verif, unless VERIF_OUT redirects them (used
+// when the checks are pointed at a seeded-fault worktree, so that committed evidence is not overwritten).
+func outDir(verifDir string) string {
+	if d := os.Getenv("VERIF_OUT"); d != "" {
+		return d
+	}
+	return verifDir
 }
